@@ -148,4 +148,20 @@ CLAIMS["C06"] = {
     "technique": "Lean 4 proof (fault-iff theorems) + three-way differential correspondence comparing outcomes with CPU faults",
 }
 
+CLAIMS["C19"] = {
+    "text": "Lean: step/exec and all helpers are total functions (termination checker, no fuel); the step frame has no crash site of its own - "
+            "a crash outcome can only come from an instruction handler or a user hook (step_panic_only_from_exec_or_hook, given well-formed "
+            "memory; hook chains crash only if a hook function does); undecodable bytes, an empty or unfetchable window, unsupported mnemonics "
+            "and unimplemented or unknown forms are error values for every state; register, memory and fetch primitives never crash for any "
+            "address, length or value (C07/C08/C09). The handlers' remaining crash sites are transcribed as Out.panic in the model and tied to "
+            "the code by a byte-string fuzzer: uniform, prefix/opcode-structured and mutated-valid strings of 1..15 bytes, code placed at the "
+            "usual address and at the edges of the address space, arbitrary registers/flags/segment bases, 0-4 data pages with arbitrary "
+            "permissions; implementation under catch_unwind and a process watchdog; outcome and full state compared with the model after the "
+            "step and after a second step from wherever the first one went.",
+    "design_ref": "DESIGN.md section 7, C19",
+    "note": COMMON_NOTE + "iced-x86's decoder is third-party code that is exercised (every byte string goes through it) but not modelled; "
+            "per-handler crash-freedom is proved for the frame and primitives and sampled for handler bodies.",
+    "technique": "Lean 4 proof (totality, crash-freedom of frame and primitives, error theorems) + fuzzed model-vs-code correspondence with crash oracle",
+}
+
 NOT_YET = {}
